@@ -202,9 +202,12 @@ def execute_order(program, ctx, mode):
     keys = []
     kinds = []
     keepalive = []
+    def fresh(x):
+        # a new, non-interned string object with the same value (names built at run time, unpickled, decoded ...)
+        return (x + '#')[:-1]
     for i, it in enumerate(pool):
         if it['kind'] == 'I':
-            s = InterfaceClass(it['name'], (Interface,), {}, __module__=it['mod'])
+            s = InterfaceClass(fresh(it['name']), (Interface,), {}, __module__=fresh(it['mod']))
             key = (it['name'], it['mod'])
         else:
             cls = type(it['name'] or 'X', (object,), {'__module__': it['mod']})
